@@ -121,6 +121,52 @@ PROPS = {
         ],
         "assumptions": ["the theorem `mirror of resolve_variables = scope_spec` is stated (C08_resolve_statement) but not proved; the property is decided per generated instance"],
     },
+    "C13": {
+        "level": "proof",
+        "streams": [],
+        "py_streams": ["cli_determinism"],
+        "rule": "files: rejected programs whose diagnostics come from several definitions at once (the former hash-ordered site), "
+                "generated accepted programs, programs perturbed at three tokens (several diagnostics from one stage), token soup; each "
+                "file is launched 12 (60) times as a fresh process, alternating `gram check` / `gram run`; stdout, stderr and exit status "
+                "must be byte-identical per command. Non-trivial: the file produces at least two diagnostics; distinct by file content.",
+        "trusted_base": TB_COMMON + [
+            "static scan tools/streams.py hash_iteration_sites: every iteration over a HashSet/HashMap in /repo/src is re-extracted on every run and compared with the modelled list (one site, sorted)",
+            "modelled, not verified: that the other stages are functions of their input is by construction of the models, which are tied to the code by the correspondence streams of C07/C09/C02; the per-process hash seed cannot be exhibited by a Coq model and is explored by repeated launches",
+        ],
+        "assumptions": ["launch-to-launch variation other than hash seeds (ASLR-dependent behaviour, time) is only covered by the launches explored"],
+    },
+    "C14": {
+        "level": "proof",
+        "streams": ["C14"],
+        "py_streams": ["cli_contract"],
+        "case_ms": 20000,
+        "rule": "library level (panics caught, 1 GiB stack, 20 s per case): all token sequences of length <= 3 (4) over the 28 kinds and 100k "
+                "(1M) longer random ones through parse(); grammar sentences with 0-3 token edits, strings over the tokenizer alphabet, raw "
+                "bytes and perturbed generated programs through tokenize+parse+type_check. Process level: all byte strings of length <= 2 "
+                "(3) over a 24-symbol alphabet with invalid UTF-8, random bytes, token soup, programs with single-token edits, nesting to "
+                "2048 - exit status and stream contract of the release binary. Non-trivial: the stage returns errors / the process exits 1; "
+                "distinct by input.",
+        "trusted_base": TB_COMMON + [
+            "modelled, not verified: no-panic and termination are theorems of the tokenizer MODEL; for the parser and the checker the absence of panics is explored (catch_unwind, process isolation)",
+        ],
+        "assumptions": ["stack exhaustion from syntactic depth beyond ~5000 nested parentheses / 10^4 chained operators (16 MiB stack, release build) is outside the explored sizes and outside the model (DESIGN D16)"],
+    },
+    "C17": {
+        "level": "proof",
+        "streams": [],
+        "py_streams": ["parse_scaling"],
+        "generated_obligations": 1,
+        "rule": "21 input families (nested parentheses, operator / application / arrow chains, definition sequences with `;` and line "
+                "breaks, nested conditionals, lambdas, and truncated or malformed variants of each) at n = 64 .. 1024 (2048): the "
+                "implementation's own counters (hook H2) must satisfy misses <= 36*(tokens+1) and scan steps <= 2*(tokens+1)^2, and the best-"
+                "of-3 time of tokenize+parse may grow at most 6x (+3 ms) per doubling. Non-trivial: every member; distinct by text.",
+        "trusted_base": TB_COMMON + [
+            "translator: memo flags of the 36 parse functions regenerated from parser.rs (Theorem all_memoised)",
+            "hook H2 (feature verif): counters of memo-table misses and recovery-scan steps in the real parser",
+            "modelled, not verified: the packrat bound is stated, not proved; machine time per step cannot be modelled and is measured",
+        ],
+        "assumptions": ["timing is measured on this machine under load from the other 15 cores; the growth threshold is deliberately loose"],
+    },
 }
 
 NOT_APPLICABLE = {}
@@ -195,5 +241,34 @@ MANIFEST_TEXT = {
         "design_ref": "DESIGN.md section 4, C08",
         "note": "Trusted: Coq kernel, extraction, OCaml driver, harness; the syntax tree comes from the parser model (C07).",
         "technique": "executable Coq scoping specification (stack of names) + differential testing with renaming and perturbation",
+    },
+    "C13": {
+        "text": "Proved: the single hash-ordered iteration of the pipeline visits the SORTED duplicate-free list, which depends only on "
+                "the set of elements (sort_dedup_set_only), so no iteration order of the HashSet can change the diagnostics; the list of "
+                "hash-iteration sites is re-extracted from the source on every run and must equal the modelled one. The hash seed itself is "
+                "explored: hundreds of files, each launched repeatedly as fresh processes and compared bytewise.",
+        "design_ref": "DESIGN.md section 4, C13",
+        "note": "Partial by nature: a Coq model cannot exhibit per-process seeds; the proof covers the order-independence, the launches cover the rest.",
+        "technique": "Coq proof of order-independence of the sorted iteration + source scan of hash-iteration sites + multi-launch byte comparison",
+    },
+    "C14": {
+        "text": "Proved for the models: the tokenizer never reaches its panic site, terminates (structural recursion) and a failing tokenizer "
+                "or parser returns a non-empty error list. Explored on the real code: no panic / abort / hang on all short token sequences, "
+                "token soup, edited grammar sentences, raw bytes and perturbed programs (library, catch_unwind + watchdog), and the exit-"
+                "status / stdout / stderr contract of the release binary on byte strings including invalid UTF-8. Partial: panic-freedom of "
+                "the parser model and of the checker are not theorems.",
+        "design_ref": "DESIGN.md section 4, C14",
+        "note": "Stack exhaustion by syntactic depth beyond the explored sizes is outside the model (named limit D16).",
+        "technique": "Coq proofs on the tokenizer/parser models (no panic, non-empty errors) + exhaustive short-input and random robustness runs under process isolation",
+    },
+    "C17": {
+        "text": "Kernel-checked for all inputs: every parse function regenerated from parser.rs is memoised (dropping one cache_check! breaks "
+                "the theorem). The resulting packrat bound is checked on the real parser's own miss/scan counters over 21 scaling families up "
+                "to thousands of tokens, well-formed and truncated, together with measured time growth per doubling; and the model's "
+                "counters equal the implementation's on every explored sequence (C07). Partial: the bound is not yet a Coq theorem and time "
+                "per step is measured, not modelled.",
+        "design_ref": "DESIGN.md section 4, C17",
+        "note": "Thresholds: misses <= 36*(tokens+1); scans <= 2*(tokens+1)^2; time x6 + 3 ms per doubling.",
+        "technique": "generated all-memoised obligation (vm_compute) + hook counters against the packrat bound + scaling measurement",
     },
 }
